@@ -1,5 +1,6 @@
 import OrsoVerif.Lemmas.DictRow
 import OrsoVerif.Lemmas.DictSession
+import OrsoVerif.Lemmas.DictViews
 /-!
 # C02 — Dictionary records map onto rows by field name
 
@@ -7,7 +8,7 @@ Property theorems (and the small lemmas they need, all about the model in
 `Model/DictRow.lean`).  A dictionary is a key-unique association list; `Keys d` are its keys.
 -/
 namespace C02
-open DictRow DictSession Gen.DictCode
+open DictRow DictSession DictViews Gen.DictCode
 
 variable {α : Type}
 
@@ -279,6 +280,27 @@ theorem rowNew_dict (null : α) (ofKey : String → α) (fields : List String) (
   rw [show tuplesOnlyDefault = false from rfl]
   exact rowNew_false null ofKey fields d
 
+/-- The dictionary may be an instance of a subclass of `dict` (OrderedDict, defaultdict, Counter): `Row.__new__`
+copies it into an exact dictionary before the compiled extractor (typed `dict data`) sees it, and `append` does
+the same before the factory is called — the extracted row either way (C02-F03). -/
+theorem rowNew_subclass (null : α) (ofKey : String → α) (fields : List String) (rows : List (List α))
+    (d : List (String × α)) :
+    rowNew null ofKey (createClass fields tuplesOnlyDefault) (.sub d) = some (extract null fields d)
+    ∧ appendCodeSub null ofKey (createClass fields frameRowsTuplesOnly) rows d = some (append null fields rows d)
+    ∧ appendCodeSub null ofKey (createClass fields frameDictsTuplesOnly) rows d = some (append null fields rows d) := by
+  have h1 : rowNew null ofKey (createClass fields false) (.sub d) = some (extract null fields d) := by
+    simp [rowNew, createClass, classHandlesDict, newGuardIsDict, newCopiesSubclass, newExtractorArgsInOrder,
+      extractLoop_eq_extract]
+  have h2 : appendCodeSub null ofKey (createClass fields false) rows d = some (append null fields rows d) := by
+    unfold appendCodeSub
+    simp only [appendBuildsRowWithFactory, appendStoresNewRow, and_self, not_true_eq_false, if_false]
+    cases hc : appendCopiesSubclass with
+    | true => simp [rowNew_false, append]
+    | false => simp [h1, append]
+  rw [show tuplesOnlyDefault = false from rfl, show frameRowsTuplesOnly = false from rfl,
+    show frameDictsTuplesOnly = false from rfl]
+  exact ⟨h1, h2, h2⟩
+
 /-- Why the flag matters (the failure mode of a class whose `__new__` is `tuple.__new__`): called with
 a dictionary it yields the dictionary's KEYS, which is not the extracted row. -/
 theorem rowNew_tuplesOnly_keys (null : α) (ofKey : String → α) (fields : List String) (d : List (String × α)) :
@@ -542,6 +564,99 @@ theorem step_outputs (null : α) (ofKey : String → α) (s : List (Frame α)) (
     simp only [step, ht, hg, ha, viewsOf, List.getLast?_append, List.getLast?_singleton, Option.some_or, Option.getD_some]
     congr 2
     exact List.map_congr_left fun p _ => getCode_eq f.names _ hl p dflt
+
+/-! ## The views as objects: what the caller is handed, and what it can do to it (Model/DictViews.lean) -/
+
+/-- As the source defines them (decorators and return expressions of orso/row.py, `fields = tuple(…)` in
+`create_class`), no view both keeps its object on the row (`@cached_property`) and hands out an object of a
+kind the caller can change in place (a `dict`, a `list`); and the class's field tuple, which `keys()` hands
+out, cannot be changed either. -/
+theorem code_views_not_aliased :
+    (∀ v, viewCached v = true → viewMutable v = false)
+    ∧ (∀ v, viewAliasesFields v = true → fieldsMutable = false) := by
+  constructor <;> intro v <;> cases v <;> decide
+
+/-- The views of the source satisfy everything `Safe` asks: not aliased (above), not defined in terms of each
+other, and every return expression evaluated on the views it reads is the view of the row. -/
+theorem code_views_safe (fields : List String) (row : List α) : Safe (codeCfg : Cfg α) fields row where
+  noAlias := code_views_not_aliased.1
+  fieldsFixed := code_views_not_aliased.2
+  acyclic := by
+    intro v w
+    show w ∈ viewDeps v → viewRank w < viewRank v
+    cases v <;> cases w <;> decide
+  bounded := by
+    intro v
+    show viewRank v < 5
+    cases v <;> decide
+  bodySpec := by intro v; cases v <;> rfl
+
+/-- The views reproduce the association EVERY time they are asked.  On one row object, in any sequence of
+reads of any of the views and of changes the caller makes in place to any object an earlier read handed it,
+every read returns that view of the row: the pair view, the dictionary view, the values, the field names, and
+(for `as_json`) the dictionary view as the object that is serialised. -/
+theorem views_rebuilt (fields : List String) (row : List α) (acts : List (Act α)) :
+    ∀ p ∈ runActs (codeCfg : Cfg α) ⟨fields, row, []⟩ acts, p.2 = some (spec fields row p.1) :=
+  run_spec codeCfg fields row (code_views_safe fields row) acts _ ⟨rfl, rfl, by simp⟩
+
+/-- non-vacuity of `views_rebuilt`: reads with caller changes in between, on the views of the source -/
+example : runActs (codeCfg : Cfg Nat) ⟨["a", "b"], [1, 2], []⟩
+      [.read .asDict, .change .asDict (fun _ => .pairs []), .read .asMap, .change .asMap (fun _ => .pairs []), .read .asJson, .read .asMap]
+    = [(.asDict, some (.pairs [("a", 1), ("b", 2)])), (.asMap, some (.pairs [("a", 1), ("b", 2)])),
+       (.asJson, some (.pairs [("a", 1), ("b", 2)])), (.asMap, some (.pairs [("a", 1), ("b", 2)]))] := by decide
+
+/-- Why the first condition matters (the failure mode of a dictionary view made a `@cached_property`): under
+ANY definition in which a view keeps its object on the row and that object can be changed, the second read
+returns whatever the caller made of the first result — not the view of the row. -/
+theorem cached_mutable_view_aliased (cfg : Cfg α) (v : View) (f : Content α → Content α) (o o1 : Obj α)
+    (c : Content α) (hc : cfg.cached v = true) (hm : cfg.mutable v = true) (ha : cfg.aliasesFields v = false)
+    (hs : slotOf v o.slots = none) (hr : readView cfg fuel v o = some (o1, c)) :
+    runActs cfg o [.read v, .change v f, .read v] = [(v, some c), (v, some (f c))] := by
+  have h1 : ∃ rest, o1.slots = (v, c) :: rest := by
+    have : fuel = 4 + 1 := rfl
+    rw [this] at hr
+    unfold readView at hr
+    simp only [hc, hs, if_true] at hr
+    cases hd : readDeps (readView cfg 4) (cfg.deps v) (o, {}) with
+    | none => simp [hd] at hr
+    | some st =>
+      obtain ⟨o', e⟩ := st
+      simp only [hd, Option.some.injEq, Prod.mk.injEq] at hr
+      obtain ⟨ho, hcc⟩ := hr
+      subst ho; subst hcc
+      exact ⟨o'.slots, rfl⟩
+  obtain ⟨rest, hrest⟩ := h1
+  have h2 : slotOf v (change cfg o1 v f).slots = some (f c) := by
+    simp [change, hc, hm, ha, hrest, slotOf]
+  have h3 : readView cfg fuel v (change cfg o1 v f) = some (change cfg o1 v f, f c) := by
+    have : fuel = 4 + 1 := rfl
+    rw [this]
+    unfold readView
+    simp [hc, h2]
+  simp [runActs, hr, h3]
+
+/-- a definition of the views like the source's, except that every view keeps its object and the
+dictionary view's object can be changed (written out: does not depend on the generated definitions) -/
+def aliasedCfg : Cfg Nat where
+  cached := fun _ => true
+  mutable := fun v => v == .asDict
+  aliasesFields := fun _ => false
+  fieldsMutable := false
+  deps := fun v => match v with | .asDict => [.asMap] | .asJson => [.asDict] | _ => []
+  rank := fun v => match v with | .asMap => 0 | .values => 1 | .keys => 2 | .asDict => 3 | .asJson => 4
+  body := fun fields row e v =>
+    match v with
+    | .asMap => .pairs (asMap fields row)
+    | .asDict => .pairs (ofPairs e.mapV)
+    | .values => .vals row
+    | .keys => .names fields
+    | .asJson => .pairs e.dictV
+
+/-- the hypotheses of `cached_mutable_view_aliased` are satisfiable, and `as_json` follows the changed dictionary -/
+example : runActs aliasedCfg ⟨["a"], [1], []⟩
+      [.read .asDict, .change .asDict (fun _ => .pairs []), .read .asDict, .read .asJson, .read .asMap]
+    = [(.asDict, some (.pairs [("a", 1)])), (.asDict, some (.pairs [])), (.asJson, some (.pairs [])),
+       (.asMap, some (.pairs [("a", 1)]))] := by decide
 
 /-- Non-vacuity. -/
 example : extract 0 ["b", "a", "z"] [("a", 1), ("b", 2), ("x", 9)] = [2, 1, 0] := by decide
